@@ -39,24 +39,34 @@ inductive SemErr where
 def pairsToDict {V : Type} (l : List (String × V)) : List (String × V) :=
   l.foldl (fun acc (k, v) => dset acc k v) []
 
-def aliasPairs (d : Doc) : List (String × String) :=
-  d.filterMap fun | .alias a b => some (a, b) | _ => none
+def stAlias : Stmt → Option (String × String)
+  | .alias a b => some (a, b)
+  | _ => none
+def aliasPairs (d : Doc) : List (String × String) := d.filterMap stAlias
 def dictAliases (d : Doc) : List (String × String) := pairsToDict (aliasPairs d)
 
-def chargeConjPairs (d : Doc) : List (String × String) :=
-  d.filterMap fun | .chargeConj a b => some (a, b) | _ => none
+def stChargeConj : Stmt → Option (String × String)
+  | .chargeConj a b => some (a, b)
+  | _ => none
+def chargeConjPairs (d : Doc) : List (String × String) := d.filterMap stChargeConj
 def dictChargeConj (d : Doc) : List (String × String) := pairsToDict (chargeConjPairs d)
 
-def copyPairs (d : Doc) : List (String × String) :=
-  d.filterMap fun | .copyDecay a b => some (a, b) | _ => none
+def stCopy : Stmt → Option (String × String)
+  | .copyDecay a b => some (a, b)
+  | _ => none
+def copyPairs (d : Doc) : List (String × String) := d.filterMap stCopy
 def dictDecays2Copy (d : Doc) : List (String × String) := pairsToDict (copyPairs d)
 
-def definePairs (d : Doc) : List (String × Rat) :=
-  d.filterMap fun | .define n v => (numValue v).map (n, ·) | _ => none
+def stDefine : Stmt → Option (String × Rat)
+  | .define n v => (numValue v).map (n, ·)
+  | _ => none
+def definePairs (d : Doc) : List (String × Rat) := d.filterMap stDefine
 def dictDefinitions (d : Doc) : List (String × Rat) := pairsToDict (definePairs d)
 
-def modelAliasPairs (d : Doc) : List (String × ModelRef) :=
-  d.filterMap fun | .modelAlias n m => some (n, m) | _ => none
+def stModelAlias : Stmt → Option (String × ModelRef)
+  | .modelAlias n m => some (n, m)
+  | _ => none
+def modelAliasPairs (d : Doc) : List (String × ModelRef) := d.filterMap stModelAlias
 def dictModelAliasesRaw (d : Doc) : List (String × ModelRef) := pairsToDict (modelAliasPairs d)
 
 /-- `dict_model_aliases()`: `[MODEL_NAME, option, …]` as the token texts -/
@@ -67,16 +77,23 @@ def dictModelAliases (d : Doc) : List (String × List String) :=
   (dictModelAliasesRaw d).map fun (k, m) => (k, modelRefTokens m)
 
 /-- `list_charge_conjugate_decays()`: sorted -/
-def cdecayNames (d : Doc) : List String :=
-  ssort (d.filterMap fun | .cdecay n => some n | _ => none)
+def stCDecay : Stmt → Option String
+  | .cdecay n => some n
+  | _ => none
+def cdecayNames (d : Doc) : List String := ssort (d.filterMap stCDecay)
+
+def photosOf : Stmt → Option Bool
+  | .globalPhotos y => some y
+  | _ => none
 
 /-- `global_photos_flag()`: the last flag, off when absent -/
-def globalPhotos (d : Doc) : Bool :=
-  ((d.filterMap fun | .globalPhotos y => some y | _ => none).getLast?).getD false
+def globalPhotos (d : Doc) : Bool := ((d.filterMap photosOf).getLast?).getD false
 
 /-- `list_lineshapePW_definitions()` -/
-def lineshapePW (d : Doc) : List (List String × Nat) :=
-  d.filterMap fun | .setLsPW a b c v => some ([a, b, c], digitsVal v.toList) | _ => none
+def stLsPW : Stmt → Option (List String × Nat)
+  | .setLsPW a b c v => some ([a, b, c], digitsVal v.toList)
+  | _ => none
+def lineshapePW (d : Doc) : List (List String × Nat) := d.filterMap stLsPW
 
 /-- Python `float(word)` also accepts these words (any case, optional sign) -/
 def floatWord (w : String) : Option String :=
@@ -182,31 +199,36 @@ def dictLineshape (d : Doc) : Except SemErr (List (String × List (String × LVa
     | .incFactor k n y => lsAdd acc n k (.flag y) false
     | _ => .ok acc) a3
 
+/-- one Particle statement: mass as written; width as written, else the reference width (MeV) of the
+    aliased particle divided by 1000; an unknown name is the RuntimeError of the query -/
+def particleStep (refWidth : String → Option Rat) (aliases : List (String × String))
+    (acc : List (String × Rat × Rat)) (n m : String) (w : Option String) : Except SemErr (List (String × Rat × Rat)) :=
+  match numValue m with
+  | none => .error (.badNumber m)
+  | some mass =>
+    match w with
+    | some wt => match numValue wt with
+      | some width => .ok (dset acc n (mass, width))
+      | none => .error (.badNumber wt)
+    | none =>
+      match refWidth ((dget aliases n).getD n) with
+      | some wd => .ok (dset acc n (mass, wd / 1000))
+      | none => .error (.runtime ("Particle name/alias not found: " ++ n))
+
 /-- `get_particle_property_definitions()`; `refWidth` is the reference width (in MeV, exact value of
     the float) of an EvtGen name in the particle table, `none` when the name is unknown -/
 def particleDefs (refWidth : String → Option Rat) (d : Doc) :
     Except SemErr (List (String × Rat × Rat)) :=
-  let aliases := dictAliases d
   d.foldlM (fun acc s => match s with
-    | .particleDef n m w =>
-      match numValue m with
-      | none => .error (.badNumber m)
-      | some mass =>
-        match w with
-        | some wt => match numValue wt with
-          | some width => .ok (dset acc n (mass, width))
-          | none => .error (.badNumber wt)
-        | none =>
-          let pname := (dget aliases n).getD n
-          match refWidth pname with
-          | some wd => .ok (dset acc n (mass, wd / 1000))
-          | none => .error (.runtime ("Particle name/alias not found: " ++ n))
+    | .particleDef n m w => particleStep refWidth (dictAliases d) acc n m w
     | _ => .ok acc) []
 
 /-! ### `parse()` -/
 
-def decayBlocks (d : Doc) : List (String × List DLine) :=
-  d.filterMap fun | .decay m ls => some (m, ls) | _ => none
+def stDecay : Stmt → Option (String × List DLine)
+  | .decay m ls => some (m, ls)
+  | _ => none
+def decayBlocks (d : Doc) : List (String × List DLine) := d.filterMap stDecay
 
 /-- `_check_parsed_decays`: walking backwards, every block of a mother that still has a later
     duplicate to drop is dropped: all but the first block of each mother survive -/
@@ -283,36 +305,48 @@ def conjTable (db : DB) (defs : List (String × String)) (src : String) (ls : Li
   let nd := (ls.flatMap (·.ds)).length
   ((names.getD nd src, rebuildLines ls (names.take nd)), defs')
 
+/-- the CDecay names still to treat: those that already have a table (Decay or CopyDecay) are
+    removed, one occurrence each -/
+def ccTodo (d : Doc) (t : Tables) : List String :=
+  ((cdecayNames d).filter ((motherNames' t).contains ·)).foldl (fun acc x => acc.erase x) (cdecayNames d)
+where motherNames' (t : Tables) : List String := t.map (·.1)
+
+/-- the tables to conjugate: for each remaining CDecay name the table of its conjugate, when there is one -/
+def ccSources (db : DB) (d : Doc) (t : Tables) : List (String × List Line) :=
+  (ccTodo d t).filterMap fun x =>
+    (lastTable t (matchCC db (dictChargeConj d) x)).map fun ls => (matchCC db (dictChargeConj d) x, ls)
+
+/-- conjugate the copies one after the other with the shared, growing dictionary -/
+def conjAll (db : DB) : List (String × String) → List (String × List Line) → Tables
+  | _, [] => []
+  | defs, (src, ls) :: r =>
+    let (tb, defs') := conjTable db defs src ls
+    tb :: conjAll db defs' r
+
 /-- `_add_charge_conjugate_decays` -/
 def addCC (db : DB) (d : Doc) (t : Tables) : Tables :=
-  let cc := cdecayNames d
-  if cc.isEmpty then t else
-  let mothers := t.map (·.1)
-  let dups := cc.filter (mothers.contains ·)
-  let cc := dups.foldl (fun acc x => acc.erase x) cc
-  if cc.isEmpty then t else
-  let defs := dictChargeConj d
-  let sources : List (String × List Line) := cc.filterMap fun x =>
-    let n := matchCC db defs x
-    (lastTable t n).map fun ls => (n, ls)
-  let (added, _) := sources.foldl (fun (st : Tables × List (String × String)) (src : String × List Line) =>
-    let (tb, defs') := conjTable db st.2 src.1 src.2
-    (st.1 ++ [tb], defs')) ([], defs)
-  t ++ added
+  t ++ conjAll db (dictChargeConj d) (ccSources db d t)
 
 structure Opts where
   includeCC : Bool := true
   deriving Repr, Inhabited
 
+/-- one Decay block after alias and Define replacement -/
+def resolveBlock (aliases : List (String × ModelRef)) (defs : List (String × Rat)) (b : String × List DLine) :
+    Except SemErr (String × List Line) :=
+  (b.2.mapM (resolveLine aliases defs)).map fun r => (b.1, r)
+
+/-- the tables from Decay blocks: de-duplication, ModelAlias and Define replacement -/
+def tablesDecay (d : Doc) : Except SemErr Tables :=
+  (dedupLoop (decayBlocks d)).mapM (resolveBlock (dictModelAliasesRaw d) (dictDefinitions d))
+
+/-- ... plus the copies requested by CopyDecay -/
+def tablesNoCC (d : Doc) : Except SemErr Tables :=
+  (tablesDecay d).map fun t => if (dictDecays2Copy d).isEmpty then t else addCopies t (dictDecays2Copy d)
+
 /-- `parse()`: the decay tables -/
-def tables (db : DB) (o : Opts) (d : Doc) : Except SemErr Tables := do
-  let blocks := dedupLoop (decayBlocks d)
-  let aliases := dictModelAliasesRaw d
-  let defs := dictDefinitions d
-  let t ← blocks.mapM fun (m, ls) => (ls.mapM (resolveLine aliases defs)).map fun r => (m, r)
-  let copies := dictDecays2Copy d
-  let t := if copies.isEmpty then t else addCopies t copies
-  pure (if o.includeCC then addCC db d t else t)
+def tables (db : DB) (o : Opts) (d : Doc) : Except SemErr Tables :=
+  (tablesNoCC d).map fun t => if o.includeCC then addCC db d t else t
 
 /-! ### queries on the tables -/
 
